@@ -137,6 +137,8 @@ type (
 		resetStreamsDuringTaggingJob   bitmask.LongBitmask
 		addedStreamsDuringTaggingJob   bitmask.LongBitmask
 
+		updatedStreamsDuringConverterJob bitmask.LongBitmask
+
 		streamsToConvert         map[string]*bitmask.LongBitmask
 		pcapProcessorWebhookUrls []string
 		pcapOverIPEndpoints      []*pcapOverIPEndpoint
@@ -663,6 +665,9 @@ func (mgr *Manager) importPcapJob(filenames []string, nextStreamID uint64, exist
 			mgr.addedStreamsDuringTaggingJob.Or(*addedStreams)
 			mgr.invalidateTags(*updatedStreams, *resetStreams, *addedStreams)
 			mgr.invalidateConverters(updatedStreams)
+			if mgr.converterJobRunning {
+				mgr.updatedStreamsDuringConverterJob.Or(*updatedStreams)
+			}
 		}
 		// remove finished job from queue
 		mgr.importJobs = mgr.importJobs[processedFiles:]
@@ -1557,6 +1562,12 @@ func (mgr *Manager) convertStreamJob(allConverters []*converters.CachedConverter
 	verifhook.Point(mgr, "convert.done", allConverters, allStreamIDs, indexes)
 	mgr.jobs <- func() {
 		mgr.converterJobRunning = false
+		if !mgr.updatedStreamsDuringConverterJob.IsZero() {
+			// an import replaced these streams while the job was running on its older index
+			// snapshot, what it cached for them may belong to their old data
+			mgr.invalidateConverters(&mgr.updatedStreamsDuringConverterJob)
+			mgr.updatedStreamsDuringConverterJob = bitmask.LongBitmask{}
+		}
 
 		for i, converter := range allConverters {
 			// The converter was removed while we were running.
